@@ -608,6 +608,9 @@ func main() {
 			all := true
 			for _, f := range byClass[c] {
 				if !re.MatchString(f.Msg) {
+					if all {
+						fmt.Printf("note: a %s failure (run %d) is not covered by the known finding's signature: %s\n", c, f.RunIndex, firstLine(f.Msg))
+					}
 					all = false
 				}
 			}
